@@ -21,6 +21,7 @@ import Pog.Model.Registry
   response_strategy.ResponseStrategyResolver.resolve         `resolveStrategy`
   generators/response_handler_generator
     .generate_response_handling                              `arms`, `defaultAction`, `runAction`
+    ._write_raise_by_status_range (the `case _:` arms)       `rangeClass`
     ._is_ndjson_stream (streaming arm of
       `_write_strategy_based_return`)                        `isNdjsonStream`, `streamJson`
     ._is_text_body (`_write_strategy_based_return` and the
@@ -580,10 +581,12 @@ inductive Action
   | retSecondary (k : RetKind)
   /-- `raise <alias>(response=response)` -/
   | raiseAlias (code : Nat)
-  /-- `raise HTTPError(…, message="Default error", …)` -/
+  /-- `_write_raise_by_status_range(…, "Default error")`: `ClientError` / `ServerError` / `HTTPError` by range (F15 repaired) -/
   | raiseDefault
-  /-- `raise HTTPError(…, message="Unhandled status code", …)` -/
+  /-- `raise HTTPError(…, message="Unhandled status code", …)` — the arm of a declared 1xx/3xx status -/
   | raiseUnhandled
+  /-- `_write_raise_by_status_range(…, "Unhandled status code")` — the final catch-all (F15 repaired) -/
+  | raiseCatchAll
   deriving DecidableEq, Repr
 
 /-- The arm ends in a `return` (or, for a streaming strategy, in the `yield` loop). -/
@@ -634,7 +637,7 @@ def arms (rs : List Resp) : List (Nat × Action) :=
 def defaultAction (rs : List Resp) : Action :=
   match rs.find? (fun r => r.key.isDefault) with
   | some d => if !d.content.isEmpty && !(resolveStrategy rs).isNone then .retStrategy else .raiseDefault
-  | none => .raiseUnhandled
+  | none => .raiseCatchAll
 
 /-- `match response.status_code:` — first arm with an equal literal, else `case _`. -/
 def selectAction (rs : List Resp) (status : Nat) : Action :=
@@ -969,6 +972,14 @@ def bundledClass (s : Nat) : ExcCls :=
   else if 500 ≤ s ∧ s < 600 then .serverError
   else .httpError
 
+/-- response_handler_generator `_write_raise_by_status_range` (F15 repaired), the emitted
+    `if 400 <= response.status_code < 500: raise ClientError(…)` / `if 500 <= response.status_code < 600: raise ServerError(…)` /
+    `raise HTTPError(…)`. -/
+def rangeClass (s : Nat) : ExcCls :=
+  if 400 ≤ s ∧ s < 500 then .clientError
+  else if 500 ≤ s ∧ s < 600 then .serverError
+  else .httpError
+
 def isPyWs (c : Char) : Bool := c == ' ' || c == '\t' || c == '\n' || c == '\r' || c == '\x0b' || c == '\x0c'
 
 def stripWs (s : Str) : Str := (s.dropWhile isPyWs).reverse.dropWhile isPyWs |>.reverse
@@ -1030,8 +1041,9 @@ def runAction (rs : List Resp) (r : Reply) : Action → Outcome
   | .retStrategy => returnOf rs (strategyRet (resolveStrategy rs) r)
   | .retSecondary k => returnOf rs k
   | .raiseAlias c => .raised (.alias c) r.status true .aliasArm
-  | .raiseDefault => .raised .httpError r.status true .defaultArm
+  | .raiseDefault => .raised (rangeClass r.status) r.status true .defaultArm
   | .raiseUnhandled => .raised .httpError r.status true .unhandledArm
+  | .raiseCatchAll => .raised (rangeClass r.status) r.status true .unhandledArm
 
 /-- What the caller observes when the server answers `r` (the request itself went out). -/
 def handle (t : TransportKind) (op : Op) (r : Reply) : Outcome :=
